@@ -17,6 +17,7 @@ from props.C01 import db
 
 
 class Md5:
+    ALWAYS_TRUE = True        # a Python object of this kind is truthy (no __bool__ / __len__)
     def __init__(self, arg):
         self.arg = arg
 
